@@ -410,7 +410,37 @@ fn run_wfault(t: &[&str], fails: &mut Fails) -> String {
     for n in notes {
         fails.push((n.clone(), n));
     }
+    if res.is_ok() {
+        // the writer said Ok: what the sink holds must read back as the batches written
+        if let Some(why) = readback(writer, spec, &inp, data.clone()) {
+            fails.push(("ok-but-unreadable".into(), why));
+        }
+    }
     format!("accepted={} res={}", data.len(), if res.is_ok() { "ok" } else { "err" })
+}
+
+/// read what a writer left in the sink with the matching real reader; None = same rows as written
+fn readback(writer: &str, _spec: &str, inp: &Input, data: Vec<u8>) -> Option<String> {
+    let want = arrow_select::concat::concat_batches(&inp.schema, &inp.batches).unwrap();
+    let got: Result<Vec<RecordBatch>, ArrowError> = match writer {
+        "sw" | "swl" | "swb" => StreamReader::try_new(Cursor::new(data), None).and_then(|r| r.collect()),
+        "fw" | "fwb" => read_ipc_file(data, false),
+        "csv" => {
+            if inp.batches.is_empty() {
+                return if data.is_empty() { None } else { Some("csv output for no batches is not empty".into()) };
+            }
+            arrow_csv::ReaderBuilder::new(inp.schema.clone()).with_header(true).build(Cursor::new(data)).and_then(|r| r.collect())
+        }
+        "json" => arrow_json::ReaderBuilder::new(inp.schema.clone()).build(Cursor::new(data)).and_then(|r| r.collect()),
+        _ => return None, // JSON array format has no arrow reader
+    };
+    match got {
+        Err(e) => Some(format!("output of a successful writer is rejected by the reader: {e}")),
+        Ok(b) => {
+            let g = arrow_select::concat::concat_batches(&inp.schema, &b).unwrap();
+            if g.num_rows() == want.num_rows() && (writer == "csv" || g == want) { None } else { Some("output of a successful writer reads back as different rows".into()) }
+        }
+    }
 }
 
 // ------------------------------------------------------------------------------ reader faults
@@ -627,8 +657,11 @@ fn gen_sink(sink: &mut Sink, rng: &mut Rng) {
     emit(sink, line, &format!("op:sink {}", if n > 0 && m > 0 { "nt" } else { "" }));
 }
 
-fn gen_wfault(sink: &mut Sink, rng: &mut Rng) {
-    let writer = *rng.pick(&["sw", "sw", "swl", "swb", "fw", "fw", "fwb", "csv", "json", "jsona"]);
+const WRITERS: [&str; 8] = ["sw", "fw", "swl", "swb", "fwb", "csv", "json", "jsona"];
+
+/// `i`-th input: the writers are visited round-robin so that every writer is exercised in every run
+fn gen_wfault(sink: &mut Sink, rng: &mut Rng, i: usize) {
+    let writer = WRITERS[i % WRITERS.len()];
     let spec = format!("{}:{}", gen_spec(rng, writer_schemas(writer)), rng.pick(&[8usize, 64]));
     let (_, trace) = fault_free(writer, &spec);
     for (sched, kind) in schedules_for(&trace) {
@@ -697,8 +730,8 @@ fn main() {
         for _ in 0..n * 100 {
             gen_sink(&mut sink, &mut rng);
         }
-        for _ in 0..n * 2 {
-            gen_wfault(&mut sink, &mut rng);
+        for i in 0..(n * 2).max(WRITERS.len() * 2) {
+            gen_wfault(&mut sink, &mut rng, i);
         }
         for _ in 0..n * 2 {
             gen_rfault(&mut sink, &mut rng);
